@@ -5,10 +5,12 @@ package service
 
 import (
 	"bytes"
+	"container/list"
 	"context"
 	"github.com/Jigsaw-Code/outline-sdk/transport/shadowsocks"
 	"io"
 	"net"
+	"net/netip"
 	"time"
 
 	"github.com/Jigsaw-Code/outline-sdk/transport"
@@ -95,7 +97,7 @@ func verifC06Run(conn *verifStreamConn, cl CipherList, cache *ReplayCache, wantS
 	lastRead := verifLastIndexEv(conn.events, "Read")
 	verifAssert("C06.close-after-last-read", verifIndexEv(conn.events, "Close") > lastRead)
 	// one read deadline, set before the first read, derived from the accept time only
-	verifAssert("C06.one-deadline", verifOneHandshakeDeadline(conn))
+	verifAssert("C06.one-deadline|C07.refused-handshake-keeps-the-probe-deadline|C08.refused-handshake-keeps-the-probe-deadline", verifOneHandshakeDeadline(conn))
 	if len(conn.deadlines) >= 1 && verifDeadlineValue {
 		d := conn.deadlines[0]
 		verifAssert("C06.deadline-is-accept-plus-timeout", !d.Before(t0.Add(tcpReadTimeout)) && !d.After(t1.Add(tcpReadTimeout)))
@@ -245,6 +247,8 @@ func VH_C06_replay() {
 	if extra > 0 {
 		conn2.reads = append(conn2.reads, verifSRead{data: verifBytes("more", extra)})
 	}
+	verifC06Debug = verifFlag("debug-logging")
+	defer func() { verifC06Debug = false }()
 	m2, d2 := verifC06Run(conn2, cl, &c, "ERR_REPLAY_CLIENT", verifFlag("timeout"), len(stream)+extra)
 	verifAssert("C07.replay.refused", len(m2.closed) == 1 && m2.closed[0] == "ERR_REPLAY_CLIENT" && len(m2.authenticated) == 0)
 	verifAssert("C07.replay.handled-like-a-probe", len(d2.dials) == 0 && conn2.writeCalls == 0 && len(m2.probes) == 1 && verifOneHandshakeDeadline(conn2))
@@ -605,4 +609,58 @@ func VH_C06_truncated_valid_stream() {
 	}
 	verifC06Run(conn, cl, nil, "ERR_CIPHER", verifFlag("timeout"), l)
 	verifReach("C06.truncated.enough-for-the-shortest-cipher", l >= 34)
+}
+
+// a probe from an address from which keys of the list were used before (the search order then
+// depends on that history): absorbed like any other
+func VH_C06_probe_from_a_known_address() {
+	cl, _, _ := verifMakeList(2, 1, false)
+	conn := &verifStreamConn{name: "client", remote: &net.TCPAddr{IP: net.IPv4(203, 0, 113, 5), Port: 50000}}
+	probeFrom := remoteIP(conn) // (in the form the server records addresses in)
+	snap := cl.SnapshotForClientIP(netip.Addr{})
+	// some of the keys were last used from the prober's address, others from elsewhere or never
+	for i, e := range snap {
+		switch verifChoice("last-used-from", 3) {
+		case 1:
+			cl.MarkUsedByClientIP(e, probeFrom)
+		case 2:
+			cl.MarkUsedByClientIP(e, netip.AddrFrom4([4]byte{198, 51, 100, byte(i + 1)}))
+		}
+	}
+	l := []int{50, 73}[verifChoice("len", 2)]
+	conn.reads = []verifSRead{{data: verifBytes("p", l)}}
+	verifC06Run(conn, cl, nil, "ERR_CIPHER", verifFlag("timeout"), l)
+	verifReach("C06.known-address.done", true)
+}
+
+// C08: the key list is replaced (a reload that makes every entry anew, same ids and secrets)
+// while a connection is between its authentication and its first response byte: the response
+// salt it then issues is still one the server recognises as its own for that key
+func VH_C08_response_salt_across_key_list_update() {
+	cl, specs, entries := verifMakeList(1, 1, false)
+	key := verifKey(specs[0].cipher, verifSecrets[specs[0].secret])
+	verifAssume(key.SaltSize() >= 20)
+	stream := verifClientStream(key, []byte{1, 93, 184, 216, 34, 0, 80, 'x'})
+	verifAssume(!entries[0].SaltGenerator.IsServerSalt(stream[:key.SaltSize()]))
+	conn := &verifStreamConn{name: "client", remote: &net.TCPAddr{IP: net.IPv4(203, 0, 113, 5), Port: 50000}}
+	conn.reads = []verifSRead{{data: stream}}
+	target := &verifStreamConn{name: "target", remote: &net.TCPAddr{IP: net.IPv4(93, 184, 216, 34), Port: 80}}
+	target.reads = []verifSRead{{data: []byte{'r'}}}
+	h := NewStreamHandler(NewShadowsocksStreamAuthenticator(cl, nil, nil, nil), tcpReadTimeout)
+	h.SetTargetDialer(&verifDialer{conn: target})
+	// the list as a reload builds it: fresh entries for the same key
+	fresh := MakeCipherEntry("id-0", verifKey(specs[0].cipher, verifSecrets[specs[0].secret]), verifSecrets[specs[0].secret])
+	m := &verifTCPMetrics{}
+	m.onAuth = func() {
+		l := list.New()
+		l.PushBack(&fresh)
+		cl.Update(l)
+	}
+	h.Handle(context.Background(), conn, m)
+	ss := key.SaltSize()
+	verifAssert("C08.across-update.response-has-salt", len(conn.written) >= ss)
+	if len(conn.written) >= ss {
+		verifAssert("C08.across-update.response-salt-recognised-for-the-key", fresh.SaltGenerator.IsServerSalt(conn.written[:ss]))
+	}
+	verifReach("C08.across-update.done", true)
 }
